@@ -117,6 +117,9 @@ def scenarios(ctx):
         inst = rand_instance(rng, big=(i % 4 == 0))
         covered = {c[0] for r in inst["reads"] for c in r["cells"]}
         scs.append({"inst": inst, "positions": not (len(covered) == inst["m"] and rng.random() < 0.5), "order": i % 3})
+    # ---- DEEP instances: a column covered by 17..20 reads (beyond the default cap of 15; --internal-downsampling allows 23) ----
+    for i in range(24 if q else 300):
+        scs.append({"inst": deep_instance(rng), "positions": True, "order": i % 3, "deep": True})
     # ---- instances that whole `whatshap phase` runs hand to the solver (recorded by the H1 hook) ----
     from .. import phaseworld as PW
     for i in range(250 if q else 4000):
@@ -134,6 +137,34 @@ def scenarios(ctx):
             w["pl_weak"] = True
         scs.append({"kind": "pipeline", "world": w})
     return scs
+
+
+def deep_instance(rng):
+    """single individual, all heterozygous, 17..20 reads covering a common column; reads are copies of two planted
+    haplotypes with a few errors (often none: then the optimum is 0)"""
+    m = rng.randint(3, 6)
+    n = rng.randint(17, 20)
+    hap = [rng.randint(0, 1) for _ in range(m)]
+    err = rng.choice([0.0, 0.0, 0.05, 0.15])
+    mid = rng.randint(1, m - 1)            # a non-final column every read covers
+    reads, planted = [], []
+    for k in range(n):
+        side = rng.randint(0, 1)
+        first = rng.randint(1, mid)
+        last = rng.randint(max(mid, first + 1), m)
+        cells = []
+        for c in range(first, last + 1):
+            if c not in (first, last, mid) and rng.random() < 0.2:
+                continue
+            a = hap[c - 1] ^ side
+            if rng.random() < err:
+                a = 1 - a
+            cells.append([c, a, rng.choice([1, 1, 5, 30])])
+        reads.append({"ind": 1, "cells": cells, "_side": side})
+    reads.sort(key=lambda r: r["cells"][0][0])
+    planted = [r.pop("_side") for r in reads]
+    return {"nInd": 1, "trios": [], "m": m, "rc": [0] * m, "reads": reads, "distrust": False, "gt": [[1] * m],
+            "gl": [[[0, 0, 0]] * m], "planted": planted}
 
 
 def solve(inst, positions=True, order=0):
@@ -222,10 +253,27 @@ def drive(sc):
             return [{"ev": "Crashed", "where": "exception:" + e["exc"][:100], "detail": e["exc"]}]
         # TLC's brute force is 2^reads x (4^trios)^2 per column: keep what it can judge in about a second
         lim = {0: 10, 1: 7, 2: 5}
-        return [h1_to_solve(h) for h in e["h1"] if h["alg"] == "whatshap" and len(h["reads"]) <= lim.get(len(h["trios"]), 4)
-                and len(h["acc"]) <= 8] or \
+        out = []
+        for h in e["h1"]:
+            if h["alg"] != "whatshap":
+                continue
+            ev = h1_to_solve(h)
+            if not (len(h["reads"]) <= lim.get(len(h["trios"]), 4) and len(h["acc"]) <= 8):
+                if len(h["reads"]) > 24 or len(h["acc"]) > 12:
+                    continue
+                ev["deep"] = True          # too large for the enumerated optimum: witness clauses only
+            out.append(ev)
+        return out or \
                [{"ev": "Solve", "inst": {"nInd": 1, "trios": [], "m": 0, "rc": [], "reads": [], "distrust": False, "gt": [[]], "gl": [[]]},
                  "cost": 0, "part": [], "tv": [], "sr": [[[], []]], "src": "pipeline-empty"}]
+    if sc.get("deep"):
+        inst = dict(sc["inst"])
+        planted = inst.pop("planted")
+        evs = solve(inst, sc.get("positions", True), sc.get("order", 0))
+        for e in evs:
+            e["deep"] = True
+            e["planted"] = planted
+        return evs
     return solve(sc["inst"], sc.get("positions", True), sc.get("order", 0))
 
 
